@@ -12,1162 +12,1243 @@ Definition show_fres (r : fres) : string :=
   end.
 Definition check (rs : list rune) : string := digest (show_fres (format_res rs)).
 Definition full (rs : list rune) : string := show_fres (format_res rs).
-Eval vm_compute in ("<<<M1651>>>" ++ check (runes_of_ascii "
+Eval vm_compute in ("<<<M314>>>" ++ check (runes_of_ascii "// c
 packet
-body  {
-    @tag( 3 )
-
-    i16 options1
-, repeat string body
-
+uint8x
+{ @tag(
+65535
+    ) x_y_z ,
+char[]  a1@calculatedFrom(
+""`tick`"")
+, @tag(1 )
+    @tag(
+    1 )
+    @tag(4294967296 )
+    repeat string rootA `tab	here` , repeat i32 tag , } packet pack { @calculatedFrom( ""// no comment"")@lengthOf(
+uint8x )string zchar @calculatedFrom(""`tick`"" ) ,
+    }
+root packet tag {// trailing space 
+@tag( 42/// triple
+) @lengthOf(As)  @leftPad
+    ( '0' )
+match u128
+as float { [00]:
+charz ,},
+} packet chars {
+    @leftPad ( '\x00') char[	10	] len
+@calculatedFrom( ""a	b"" )
+    ,@tag( 00 )@tag(
+    10)uint64 matchKey ,x_y_z
+{ repeat // packet A { u8 x, }
+string rootA	`doc` , tag // packet A { u8 x, }
+, repeat char
+//x
+//	t
+MetaDataX , int64
+    asx
+    // 50% %s
     ,
-@calculatedFrom(// trailing space 
-    	""a\""b""
-
-)x_y_z
-	@calculatedFrom(
-""a\\""	)
-`it's`
-
-    ,	match
-    o 
-as
-
-    BodyLength
-	{
-00	:
-pack
-
-,
-
-1 : u
-
-,
-    [
-	255 , 255
-
-    ,
-
-    ""// no comment""]	:
-
-    Packet
-[
-
-    65535
-]
-	:i64_ ,
-
-    }  
-  // @lengthOf(
-	  //
-  , // a // b
-  @calculatedFrom(  // c
-	""" ++ [233]%N ++ runes_of_ascii "t" ++ [233]%N ++ runes_of_ascii """)
-
-string// `tick` ""quote"" 'q'
-	len  `tab	here`  ,@tag(0123456789 )
-repeat 
-  //	t
-	matchKey
-
-A 
-`a\`	,
-i8i8 
-Packet
-
-,
-	stringy @calculatedFrom(  ""x y""	)
-    , 
-f32a 
-As	`crlf
-line` ,
-    u128 {
-
-repeat int	{
-	repeat
-	zchar[255]
-
-    a1
-`{ , }`  , 
-// a // b
-
-  // a // b
-
-  match	calculatedFrom	as body //	t
-		{
-
-    0  // " ++ [27880; 37322]%N ++ runes_of_ascii "
-
-:	body
-
-    42  
-      // c
-  :
-
-    tag	// @lengthOf(
-    , ""1""
-	:
-
-    packetx
-
-    ,	""it's""	:	roots  ,
-} 
-, i32
-u 
-@calculatedFrom(// " ++ [128512]%N ++ runes_of_ascii " emoji
-    ""a\\"" 
+    } ,// trailing space 
+i16
+stringy  ,match x_y_z as BodyLength //x
+{
+    [""\" ++ [233]%N ++ runes_of_ascii """ ,
+""" ++ [28040; 24687]%N ++ runes_of_ascii """
+, 7, 0
+, 7, 4294967296 ]: A , // " ++ [128512]%N ++ runes_of_ascii " emoji
+}
+, @calculatedFrom(""\n""
 )
-,}
-
-,
-
-    string_ `crlf
-line`
-    , _x
-	, repeat
-lengthOf crc ,	} ,  // " ++ [27880; 37322]%N ++ runes_of_ascii "
-	}
-	MetaData
-
-    rootA
-    {
-
-uint8
-tag,	string Z9_`u8 x,`
-,  f64  float
-	,
-	Logon falsey
-`a\`,  }
-
-    packet
-
-    len	{
-    char[]
-	u`// not a comment`,
-char[]
-	Header	`// not a comment` 
-,
-
-    string  charz
-
-// a // b
-
-/// triple
-	`tab	here` 
-, 
+@leftPad
     //
-  @leftPad 
-
-// packet A { u8 x, }
-
-  ( )  @lengthOf(
-
-a1  )
-// " ++ [128512]%N ++ runes_of_ascii " emoji
-	  //x
-	len crc
-
+    ( )f64 msg_type
+, repeat Logon`say ""hi""`  , @tag( 007 ) match
+    crc as
+    msg_type	{ [""a\\""
+,0123456789 , ""`tick`""
+, """ ++ [233]%N ++ runes_of_ascii "t" ++ [233]%N ++ runes_of_ascii """  ,
+//
+// trailing space 
+""{,}"" , // a // b
+255,	0123456789
+    //
+    ]: // packet A { u8 x, }
+Header 0123456789 : len // c
+,65535
+:BodyLength,
+""CRC32""
+:string_// " ++ [128512]%N ++ runes_of_ascii " emoji
 ,
-@leftPad(
-' ' ) Packet @calculatedFrom(
-""" ++ [128512]%N ++ runes_of_ascii """ )
-    ,
-    repeat
-    uint8 a1 ,match	T
-    as
-
-As
+4294967296 : len
+    , """ ++ [28040; 24687]%N ++ runes_of_ascii """  : trueish},repeat string
+    u ,	lengthOf Z9_ `{ , }`,} // 50% %s
+packet
+    trueish
+{  f32 Logon @calculatedFrom(
+    ""1"" ) , i64 matchKey
+    @calculatedFrom( ""x y""// a // b
+) //x
+`" ++ [28040; 24687; 31867; 22411]%N ++ runes_of_ascii "` , i8i8 `it's`
+    , msg_type
+, uint8 lengthOf ,int trueish, char[ 0123456789
+]
+uint8x , i8 int @lengthOf( msg_type ) `say ""hi""` ,@rightPad	( )  repeat f64
+    Z9_ , metadata{
+    falsey @calculatedFrom(  ""abc"" ) ,	} //
+, }")).
+Eval vm_compute in ("<<<M1827>>>" ++ check (runes_of_ascii "
+options
 {
 
-    ""packet""
-:
+    StringPrefixLenType =u16 
+;ArrayPrefixLenType
+    = u16
+;
+} packet SampleBinary
+{ uint16
+	MsgType
+`" ++ [28040; 24687; 31867; 22411]%N ++ runes_of_ascii "` ,
 
+u16
+BodyLenght
+@lengthOf(
+Body  ) `" ++ [28040; 24687; 20307; 38271; 24230]%N ++ runes_of_ascii "` , 
+match
+MsgType
+as
+    Body 
+{ 1:
 Logon
+, 2
+:
+    Logout
+
     ,
 
-    [  """ ++ [128512]%N ++ runes_of_ascii """ ,
-0
-    ]:i64_,
-[""packet""
-,	7
-]	:  string_, }
+3:
 
-    ,repeat //
-      zchar[
-007 ]	zchar
-	`{ , }` , }")).
-Eval vm_compute in ("<<<M43>>>" ++ check (runes_of_ascii "packet asx {
-    leftPad@calculatedFrom( """ ++ [233]%N ++ runes_of_ascii "t" ++ [233]%N ++ runes_of_ascii """ ) , @leftPad
-(  '0')
-    // trailing space 
-    u8x As `crlf
-line` ,char[ 3 ] asx @calculatedFrom( ""{,}"" )  ,
-// @lengthOf(
-// trailing space 
-repeat u128  { int {packetx @calculatedFrom( ""packet"" )
-    ,	match
-T as  T
-{ ""a	b""
-: o , } , zchar[ 00
-    ]lengthOf
-`{ , }` ,
-/// triple
-// trailing space 
-char[] crc @calculatedFrom( ""abc"" )
-, } , Header	@calculatedFrom( """ ++ [233]%N ++ runes_of_ascii "t" ++ [233]%N ++ runes_of_ascii """ )
-`two words` ,
-repeat uint8 uint8x , repeat
-    //
-    char[0123456789 ]float`u8 x,`,} ,
-packetx x `say ""hi""` , @rightPad ( )
-i8i8
-    @calculatedFrom( ""x y""), @leftPad
-    ( ) BodyLength {repeat	int32
-_x ``  , i8 msg_type
-`doc` //
-, }, }
-// `tick` ""quote"" 'q'
-// packet A { u8 x, }
-packet body { }	packet	repeatCount{zchar[  3 ] Packet, @lengthOf( // @lengthOf(
-Header  )
-    i64
-// c
-// c
-Packet `two words` ,
-zchar[ 65535
-]calculatedFrom `tab	here`//	t
-, match x as leftPad
-    { ""// no comment"": rootA
-    , ""`tick`"" :
-o,
+Heartbeat ,	4  :
+	RiskControlRequest, 5 : RiskControlResponse
+, }
+
+, @calculatedFrom( 
+""CRC32"" ) u32  Ckecksum
+    `" ++ [26657; 39564; 21644]%N ++ runes_of_ascii "` , 
 }
-,// " ++ [128512]%N ++ runes_of_ascii " emoji
-zchar[ //	t
-3 ]
-// packet A { u8 x, }
-// " ++ [27880; 37322]%N ++ runes_of_ascii "
-u128 @calculatedFrom( ""{,}"" ) `{ , }`
+    packet
+Logon	{	@leftPad
+
+(
+
+'0' )char[10
+] 
+UserName `" ++ [29992; 25143; 21517]%N ++ runes_of_ascii "`,
+
+string Password
+`" ++ [23494; 30721]%N ++ runes_of_ascii "`
+	,	uint64 ClientId 
+`" ++ [23458; 25143; 31471]%N ++ runes_of_ascii "ID`
+
+    ,u16
+
+    HeartbeatInterval  `" ++ [24515; 36339; 38388; 38548]%N ++ runes_of_ascii "`
+,
+} packet
+Logout { @rightPad
+('0'
+    )
+    char[
+	10  ]UserName	`" ++ [29992; 25143; 21517]%N ++ runes_of_ascii "` 
+,
+uint64
+
+    ClientId`" ++ [23458; 25143; 31471]%N ++ runes_of_ascii "ID`  ,  } packet Heartbeat {} packet	RiskControlRequest
+{
+string UniqueOrderId`" ++ [21807; 19968; 35746; 21333; 21495]%N ++ runes_of_ascii "`
     ,
+
+    char[
+16 ]ClOrdID
+    `" ++ [23458; 25143; 35746; 21333; 21495]%N ++ runes_of_ascii "` ,
+
+char[ 3
+	]
+MarketID `" ++ [24066; 22330]%N ++ runes_of_ascii "id`, 
+char[
+12
+]  SecurityID
+`" ++ [35777; 21048; 20195; 30721]%N ++ runes_of_ascii "` , char
+
+    Side
+`" ++ [20080; 21334; 26041; 21521]%N ++ runes_of_ascii "`
+	, char
+
+OrderType
+    `" ++ [35746; 21333; 31867; 22411]%N ++ runes_of_ascii "`
+
+, u64
+    Price	`" ++ [20215; 26684]%N ++ runes_of_ascii "`, u32
+
+Qty `" ++ [25968; 37327]%N ++ runes_of_ascii "`  ,	repeat 
+string
+
+    ExtraInfo
+`" ++ [38468; 21152; 20449; 24687]%N ++ runes_of_ascii "`  , repeat 
+SubOrder {
+char[ 16	]
+ClOrdID
+
+    `" ++ [23376; 35746; 21333; 21495]%N ++ runes_of_ascii "`
+	, 
+u64
+
+Price	`" ++ [23376; 35746; 21333; 20215; 26684]%N ++ runes_of_ascii "`,u32
+
+Qty
+
+`" ++ [23376; 35746; 21333; 25968; 37327]%N ++ runes_of_ascii "` ,
+} , }
+
+packet	RiskControlResponse{
+
+string
+UniqueOrderId
+
+`" ++ [21807; 19968; 35746; 21333; 21495]%N ++ runes_of_ascii "`
+
+, i32
+Status `" ++ [29366; 24577]%N ++ runes_of_ascii "` , string
+Msg`" ++ [32467; 26524; 20449; 24687]%N ++ runes_of_ascii "`
+
+    ,
+
+repeat 
+Detail  , 
 }
-    //	t
-    options { u = char[ 42 ] // " ++ [27880; 37322]%N ++ runes_of_ascii "
-metadata
-=""a\\""
-;  Logon =
-string ; Z9_ = u16
-;  }
+
+packet
+
+Detail
+
+{
+	string
+RuleName 
+`" ++ [35268; 21017; 21517; 31216]%N ++ runes_of_ascii "`
+
+    ,	u16
+Code	`" ++ [21407; 22240; 20195; 30721]%N ++ runes_of_ascii "` 
+,
+}
 ")).
-Eval vm_compute in ("<<<M1392>>>" ++ check (runes_of_ascii "options {
-    FixedStringPadFromLeft = true;
+Eval vm_compute in ("<<<M1385>>>" ++ check (runes_of_ascii "// top
+options // c0
+{ LittleEndian
+    // c2
+= false ; // c5
+StringPrefixLenType
+    // c6
+= // c7a
+  // c7b
+u16 // c8
+;
+    // c9
+FixedStringPadFromLeft // c10
+= // c11a
+  // c11b
+true // c12a
+  // c12b
+; // c13
+FixedStringPadChar
+    // c14
+= // c15
+'0' ; }
+    // c18
+packet // c19
+Fill
+    // c20
+{ // c21a
+  // c21b
+} // c22
+root
+    // c23
+packet // c24a
+  // c24b
+Order
+    // c25
+{ repeat // c27
+Fill // c28a
+  // c28b
+, char[]
+    // c30
+clOrdID // c31a
+  // c31b
+, // c32
+@rightPad // c33
+(
+    // c34
+'\x00' // c35a
+  // c35b
+) char[ 4 // c38a
+  // c38b
+] lastPx
+    // c40
+, // c41a
+  // c41b
+char[] // c42
+OrderId
+    // c43
+, // c44a
+  // c44b
+int8 tag7
+    // c46
+, // c47
+u8 f1 ,
+    // c50
+u16 count // c52
+@lengthOf( // c53a
+  // c53b
+Body ) // c55
+, // c56a
+  // c56b
+match f1 as Body // c60
+{ // c61a
+  // c61b
+[ 159 , 49
+    // c65
+] : // c67a
+  // c67b
+Fill
+    // c68
+,
+    // c69
+} , // c71
+u16
+    // c72
+Tail
+    // c73
+@calculatedFrom( // c74a
+  // c74b
+""CRC32""
+    // c75
+) ,
+    // c77
+} // c78a
+  // c78b
+")).
+Eval vm_compute in ("<<<M104>>>" ++ check (runes_of_ascii "MetaData Z9_{ string roots
+, repeatCount packetx`say ""hi""`, }
+//
+// packet A { u8 x, }
+packet float
+{  repeat
+char[]	metadata ,
+zchar[ 00 ] leftPad @calculatedFrom(""" ++ [233]%N ++ runes_of_ascii "t" ++ [233]%N ++ runes_of_ascii """ )
+`" ++ [233]%N ++ runes_of_ascii "`,string T
+    @lengthOf( Pad)
+`doc`
+, match f32a as
+    crc { ""x y"" :Foo
+, // @lengthOf(
+0: _x [ ""1"" ]
+    :
+// a // b
+// packet A { u8 x, }
+As [ 255 , 1 ,"""" ,	""1"", ""abc"" , """ ++ [233]%N ++ runes_of_ascii "t" ++ [233]%N ++ runes_of_ascii """	,
+    10 ] :  leftPad	,// @lengthOf(
+""{,}"" :
+    a1  4294967296  :	body ,
+    //
+    } , lengthOf
+@calculatedFrom(
+    ""\" ++ [233]%N ++ runes_of_ascii """)
+    , // packet A { u8 x, }
+@calculatedFrom( ""`tick`""
+    ) @lengthOf(
+u
+)  @leftPad (
+    '0'
+) match o as BodyLength  { [
+    3
+,
+    1 ,""a\\"" ,""`tick`"" ,// @lengthOf(
+1, 1 ]: asx , [ ""a	b""
+, 255 ,
+3
+    , ""abc""
+    ,65535 ] :
+    asx ,
+10
+:Z9_
+, [
+10, //
+""CRC32"", 7
+] : roots
+, } ,
+    // 50% %s
+    u16 a1 ,  @tag( 00) uint32	MetaDataX
+`u8 x,` , @leftPad( '\x00')
+    @rightPad //x
+(
+    )
+    i64
+calculatedFrom
+,	}
+")).
+Eval vm_compute in ("<<<M1858>>>" ++ check (runes_of_ascii "options {
+    ArrayPrefixLenType = u32;
+    FixedStringPadFromLeft = false;
     FixedStringPadChar = '0';
 }
 
-packet Leg {
-    InPrice0 {
-        repeat string clOrdID,
-        int16 msgKind,
-        zchar[5] Px,
-    },
-    i16 f1,
-    repeat f64 Side2,
-    string Acct,
-}
-
-packet Cancel {
-    zchar[4] clOrdID,
-    string seqNo,
-    Leg,
-    @leftPad('0')
-    char[11] OrderId,
-}
-
-packet Quote {
-    repeat char[4] sym,
-    f64 OrderId,
-    repeat Leg,
-    repeat i64 f1,
-    int16 Note,
-    zchar[3] count,
-}
-
-root packet Ack {
-    @leftPad(' ')
-    char[10] sym,
-    InPx60 {
-        Cancel,
-        repeat char[1] f1,
-        string Tail,
-        repeat InNote55 {
-            int8 count,
-            f64 f1,
-            repeat Cancel,
+packet Trade {
+    repeat InVenue78 {
+        u16 tag7,
+        repeat InLastpx9 {
+            u8 pad0,
         },
-        char[] tag7,
-        repeat string msgKind,
+        int64 Tail,
+        repeat InQty37 {
+            char[2] OrderId,
+            zchar[6] lastPx,
+            int64 Qty,
+        },
+        uint8 Side2,
     },
-    u8 lastPx,
-    match lastPx as Body {
-        152 : Quote,
-        173 : Cancel,
-        4 : Leg,
+}
+
+packet Logon {
+    repeat string venue,
+    @rightPad('\x00')
+    char[3] sym,
+    zchar[9] count,
+    zchar[7] f1,
+    Trade,
+}
+
+packet Logout {
+}
+
+root packet Reject {
+    int32 sym,
+    u8 Px,
+    u32 Tail @lengthOf(Body),
+    match Px as Body {
+        184 : Trade,
+        173 : Logon,
+        12 : Logout,
     },
-    u16 Ref @calculatedFrom(""CRC32""),
+    u32 tag7 @calculatedFrom(""CR\
+        C32""),
 }")).
-Eval vm_compute in ("<<<M104>>>" ++ check (runes_of_ascii "options{  matchKey = ""x y""
-    ;	MetaDataX
-= '0'
-;
-} packet // c
-msg_type { @rightPad ( ' '  )repeat u128 body	, match body	as /// triple
-pack{ [ ""\" ++ [233]%N ++ runes_of_ascii """ , ""1"" ]: BodyLength
-, [ 255
-, ""a	b"" , ""a\\"" , ""{,}""
-,  007 , 007 ,
-    0123456789
-] : options1	,	} ,@leftPad
-()@lengthOf(charz	)
-@tag(	42
-) o{	i32 msg_type @lengthOf( A )// " ++ [27880; 37322]%N ++ runes_of_ascii "
-`doc` ,zchar[ 1] charz  , // c
-i8 packetx`{ , }`,
-msg_type `crlf
-line`
-    , }	,
-@calculatedFrom( ""\" ++ [233]%N ++ runes_of_ascii """ ) Z9_ @calculatedFrom(
-""" ++ [128512]%N ++ runes_of_ascii """ )`tab	here` ,
-repeat char[] Foo ,
-repeat zchar[ 0123456789]	u128
-, }	packet f32a{
-    f32a @lengthOf( matchKey )//x
-, @rightPad (
-    ' ' // " ++ [27880; 37322]%N ++ runes_of_ascii "
-)@lengthOf( chars ) _x Foo  `` ,  match
-    body // c
-as
-    body
-    {	[4294967296
-    , ""packet"", 3 , """ ++ [128512]%N ++ runes_of_ascii """
-,
-0123456789  ]
-: T [ ""a\\"" ]// `tick` ""quote"" 'q'
-: T
-, ""\n""
-:
-u8x , }
+Eval vm_compute in ("<<<M355>>>" ++ check (runes_of_ascii "options  { } root packet A {
+@tag(
+65535 ) @lengthOf( calculatedFrom )
+match msg_type as
+_x // `tick` ""quote"" 'q'
+{// c
+00
+: MetaDataX// packet A { u8 x, }
+, 0123456789 :matchKey , [	""""
+    ]:
 //	t
 //x
-,} //x
-root packet lengthOf
-{ }
-")).
-Eval vm_compute in ("<<<M1761>>>" ++ check (runes_of_ascii "MetaData x {
-    len crc,
-    float asx,
-    i32 uint8x `line1
-    line2`,
-    u16 tag `it's`,
-    As string_,
-}
-
-packet metadata {
-    @lengthOf(zchar)
-    // c
-    i64_ @calculatedFrom(""\" ++ [233]%N ++ runes_of_ascii """),//x
-    @leftPad('\x00')
-    zchar[10] zchar,
-    lengthOf string_,
-    int @lengthOf(pack),
-    zchar[00] Foo,
-    @lengthOf(packetx)
-    @leftPad('\x00')
-    @calculatedFrom(""x y"")
-    uint16 len @calculatedFrom("""") `two words`,
-    int8 metadata @lengthOf(Foo) `two words`,// @lengthOf(
-}
-
-options {
-}
-
-packet pack {
-    // `tick` ""quote"" 'q'
-    //
-    f64 o,
-    T BodyLength,
-    repeat uint8 chars `" ++ [233]%N ++ runes_of_ascii "`,
-    repeat Logon u,
-    @tag(0123456789)
-    char[] repeatCount @lengthOf(_x) `
-    `,//
-    @tag(7)
-    repeatCount @calculatedFrom(""packet"") `{ , }`,
-}")).
-Eval vm_compute in ("<<<M1361>>>" ++ check (runes_of_ascii "options {
-    // c1
-LittleEndian // c2
-= false ;
-    // c5
-StringPrefixLenType // c6a
-  // c6b
-= // c7a
-  // c7b
-u16
-    // c8
-; // c9a
-  // c9b
-}
-    // c10
-packet Heartbeat // c12
-{ @rightPad // c14a
-  // c14b
-( // c15
-'0' )
-    // c17
-char[ // c18
-7 // c19a
-  // c19b
-]
-    // c20
-seqNo , uint64 Tail
-    // c24
-, // c25a
-  // c25b
-i16 Flags // c27a
-  // c27b
-, // c28
-u16 // c29a
-  // c29b
-msgKind , // c31a
-  // c31b
-} root // c33a
-  // c33b
-packet Reject
-    // c35
-{ // c36
-zchar[ 3 // c38a
-  // c38b
-] tag7 // c40a
-  // c40b
-, // c41
-repeat // c42
-Heartbeat
-    // c43
-, // c44
-repeat string // c46
-clOrdID // c47a
-  // c47b
-, // c48a
-  // c48b
-} // c49a
-  // c49b
-")).
-Eval vm_compute in ("<<<M247>>>" ++ check (runes_of_ascii "
-options { leftPad // packet A { u8 x, }
-= 0
-;
-    //
-    Logon
-    =
-char // `tick` ""quote"" 'q'
-i64_ = '\x00'
-; }
-options { crc =
-i32	; matchKey =
-255
-    leftPad = ' ' ; metadata= 42// trailing space 
-; packetx =10
-    }
-root packet//
-A { @calculatedFrom( ""x y"" // c
-)/// triple
-zchar[ 00]
-f32a, @tag(
-255 )
-    zchar[
-0123456789 ]	a1
-@lengthOf(As )`" ++ [28040; 24687; 31867; 22411]%N ++ runes_of_ascii "`
+stringy["""",255
+, 4294967296 ,
     /// triple
-    , int16 body, // `tick` ""quote"" 'q'
-uint64
-x
-@calculatedFrom(""1""
-//	t
-// " ++ [128512]%N ++ runes_of_ascii " emoji
-) // packet A { u8 x, }
-`line1
-line2` ,@lengthOf( Logon )char[
-    0// packet A { u8 x, }
-]float@calculatedFrom(
-""abc"" ) ,
-} MetaData u128 { }
-")).
-Eval vm_compute in ("<<<M1121>>>" ++ check (runes_of_ascii "// top
-root // c0
-packet // c1
-_x
-    // c2
-{ match
-    // c4
-Foo // c5
-as // c6a
-  // c6b
-Z9_ {
-    // c8
-""a	b"" // c9a
-  // c9b
-: // c10
-Pad // c11
-,
-    // c12
-} , // c14
-repeat // c15a
-  // c15b
-x `line1
-line2`
-    // c17
-, // c18
-@rightPad // c19a
-  // c19b
-(
-    // c20
-' ' // c21
-) // c22
-@calculatedFrom( ""a\\""
-    // c24
-) // c25a
-  // c25b
-metadata MetaDataX
-    // c27
-, @tag(
-    // c29
-0 ) // c31
-Logon int
-    // c33
-``
-    // c34
-,
-    // c35
-} // c36
-options // c37
-{
-    // c38
-T // c39
-= // c40a
-  // c40b
-'\x00' } // c42a
-  // c42b
-")).
-Eval vm_compute in ("<<<M1727>>>" ++ check (runes_of_ascii "packet leftPad {
-    @rightPad()
-    repeat chars {
-        crc pack,
-    },
-    @calculatedFrom(""" ++ [28040; 24687]%N ++ runes_of_ascii """)
-    @lengthOf(options1)
-    @tag(65535)
-    Foo,
-    match matchKey as tag {
-        // c
-        [
-            ""{,}"", """", ""`tick`"", 3, ""it's"",
-            """ ++ [128512]%N ++ runes_of_ascii """, ""it's""
-        ] : As,
-        [""x y""] : chars,
-        """ ++ [233]%N ++ runes_of_ascii "t" ++ [233]%N ++ runes_of_ascii """ : uint8x,
-        4294967296 : packetx,
-        ""// no comment"" : calculatedFrom,
-    },
-    @calculatedFrom(""// no comment"")
-    char[007] f32a,
-}// a // b")).
-Eval vm_compute in ("<<<M180>>>" ++ check (runes_of_ascii "options
-    // @lengthOf(
-    {}
-packet charz { @rightPad (  ' ') @calculatedFrom(
-    ""a\\"" ) repeat int	crc `two words` , string stringy
-    @calculatedFrom( ""a	b""
-    // " ++ [128512]%N ++ runes_of_ascii " emoji
-    )`// not a comment`	,//
-char i8i8,
-}  MetaData	crc {// `tick` ""quote"" 'q'
-crc i64_`{ , }`
-,
+    42 ,
+3,""// no comment"" ] :  chars  [//	t
+""abc"" , ""CRC32""
+]// c
+:A , ""\" ++ [233]%N ++ runes_of_ascii """
+: stringy ,
     // `tick` ""quote"" 'q'
-    i32// c
-u128 ,// packet A { u8 x, }
-BodyLength Header
-    ,char[ 0123456789]
-/// triple
-//
-Packet `u8 x,`
-, uint8 repeatCount , //	t
-}")).
-Eval vm_compute in ("<<<M1331>>>" ++ check (runes_of_ascii "packet	Frame
-
-{  u8 HK 
-,  u8
-
-BK, u8
-    TK
-,match 
-HK as
-
-Hdr
-{	1
-
-    :
-    HdrA 
-,
-
-2 : HdrB
-, },	match	BK
-as
-
-Body{  1	:
-
-    BodyA ,  2
-:
-
-    BodyB 
-,}
-	, 
+    }
+    ,// @lengthOf(
 match
-
-    TK as Trl {
-	1 : TrlA
-
-,} , } packet HdrA { u8 a  ,
-}packet
-    HdrB 
-{ 
-u16
-    b
-	,  }packet BodyA{ u32 c ,
-}packet
-    BodyB
-	{
-
-    u64
-d , }
-    packet
-TrlA  {  u8
-e,} root
-	packet
-Msg
-
-{ Frame
-,
-    u8
-
-x,} ")).
-Eval vm_compute in ("<<<M1671>>>" ++ check (runes_of_ascii "packet a1 
-{@leftPad
-(
-)	float @lengthOf(
-uint8x) 
-,
-
-    } 
-packet	Logon {
-
-    char	Logon@calculatedFrom( ""a\\"" 
-)	, T
-
-    stringy  ,
-    //
-// c
-  repeat
-uint8
-stringy	`two words`	,}
-
-MetaData  charz{
-
-    u  tag
-`
-`	,	a1
-	falsey , //x
-
-Z9_ matchKey
-,
-f64
-lengthOf
-`a\`// @lengthOf(
-	,f32a roots
-
-    `` ,
-	float64 
-x_y_z// @lengthOf(
-  , } ")).
-Eval vm_compute in ("<<<M30>>>" ++ check (runes_of_ascii "packet
-repeatCount
-    {@calculatedFrom(	""abc"" ) zchar[
-    // @lengthOf(
-    0
-] // `tick` ""quote"" 'q'
-MetaDataX  `
-`	, string_
-@calculatedFrom( ""1""
-    ) ,	match string_
-    as msg_type{ [// a // b
-65535	,// a // b
-""a	b""
-    , 7
-    ,	255 ]:
-matchKey , 10 :
-    options1 , 3 :Logon
-    , } ,
-    // " ++ [27880; 37322]%N ++ runes_of_ascii "
-    packetx `a\` ,}
-")).
-Eval vm_compute in ("<<<M81>>>" ++ check (runes_of_ascii "root packet o {
-} MetaData uint8x
-    { int64 rootA  ,}
-    MetaData
-As{i32 // packet A { u8 x, }
-chars,	}packet Z9_// trailing space 
-{
-@leftPad( )char[]	x_y_z,} packet tag {	@leftPad(
+// 50% %s
 // " ++ [128512]%N ++ runes_of_ascii " emoji
-// " ++ [27880; 37322]%N ++ runes_of_ascii "
-' '
-    )
-zchar[ 0 // `tick` ""quote"" 'q'
-] rootA @calculatedFrom(
-    ""a\\"" )
-    `tab	here`
-,}")).
-Eval vm_compute in ("<<<M1314>>>" ++ check (runes_of_ascii "packet MDSnapshotZZ {
-    u8 a,
-}
-packet OrderACK {
-    u16 b,
-}
-packet HTTPServerInfo {
-    string s,
-}
-root packet FIXMsg {
-    u8 KType,
-    MDSnapshotZZ,
-    repeat OrderACK,
-    match KType as Body {
-        1 : HTTPServerInfo,
-        2 : OrderACK,
-    },
-}
+trueish as repeatCount{ [ 4294967296 , """ ++ [233]%N ++ runes_of_ascii "t" ++ [233]%N ++ runes_of_ascii """] : //	t
+crc ""a\\""
+:falsey ,
+""a\\"" : A
+,	10 : // c
+uint8x , ""it's"" :
+    repeatCount
+, } ,  asx float, @rightPad ( ) f64 int @lengthOf(roots
+    )  `doc` , }
+    // c
+    options { string_=""packet"" ;}")).
+Eval vm_compute in ("<<<M1195>>>" ++ check (runes_of_ascii "// top
+options // c0
+{ // c1
+} // c2
+MetaData // c3
+packetx // c4
+{ // c5
+int // c6
+falsey // c7
+`two words` // c8
+, // c9
+int32 // c10
+trueish // c11
+, // c12
+char[] // c13
+u8x // c14
+, // c15
+A // c16
+x // c17
+`// not a comment` // c18
+, // c19
+} // c20
+root // c21
+packet // c22
+i8i8 // c23
+{ // c24
+@lengthOf( // c25
+repeatCount // c26
+) // c27
+@tag( // c28
+1 // c29
+) // c30
+@calculatedFrom( // c31
+""a	b"" // c32
+) // c33
+string // c34
+stringy // c35
+@calculatedFrom( // c36
+""\n"" // c37
+) // c38
+`line1
+line2` // c39
+, // c40
+pack // c41
+`100% of %d` // c42
+, // c43
+} // c44
 ")).
-Eval vm_compute in ("<<<M1313>>>" ++ check (runes_of_ascii "options	{ FixedStringPadChar
-=
-
-'0';  }packet
-Q
-{ zchar[4  ]
-
-z
-	, @rightPad  ('\x00'  )
-
-    char[ 
-3
-]
-n , char[
-    5 ]  d,
-}
-
-    root
-packet
-R
-
-{
-
-    Q 
-, zchar[8 
-]top
-
-    ,	repeat zchar[	2
-]
-	zs
-
-    , 
-}")).
-Eval vm_compute in ("<<<M249>>>" ++ check (runes_of_ascii "
-packet
-rootA {
-} // trailing space 
-packet f32a //	t
-{ match
-zchar as zchar
-    {	65535 : f32a , 7 : charz// trailing space 
-,
-""{,}""
-//	t
+Eval vm_compute in ("<<<M98>>>" ++ check (runes_of_ascii "MetaData
+    //x
+    Pad
+{ u32  u128  `doc`
+// @lengthOf(
 //x
-: Header , 42
-    :a1 // packet A { u8 x, }
-, }
-, }
-")).
-Eval vm_compute in ("<<<M1875>>>" ++ check (runes_of_ascii "// top
-packet B {
+, char[] len`a\`, Header  tag
+    , u8 repeatCount `tab	here`//	t
+,/// triple
+Pad int, } packet
+    len{
+//x
+/// triple
+As {
+pack
+_x `
+`
+, asx {
+    //
+    string  calculatedFrom
+@lengthOf(
+MetaDataX
+) , stringy u8x, char[
+    255 ] MetaDataX
+@calculatedFrom( """"
+), } ,
+calculatedFrom {string_ len , } ,	Header @lengthOf(
+// c
+//x
+charz ), }
+    ,
+    }
+// " ++ [27880; 37322]%N ++ runes_of_ascii "
+// " ++ [128512]%N ++ runes_of_ascii " emoji
+options {
+// c
+// a // b
+} options
+    { packetx	= ""`tick`""
+    ; /// triple
+i64_	= ' '; }")).
+Eval vm_compute in ("<<<M1137>>>" ++ check (runes_of_ascii "// top
+packet // c0a
+  // c0b
+_x // c1
+{
     // c2
-    u8 a,
-}// c6
+match // c3a
+  // c3b
+Foo // c4
+as // c5
+Z9_
+    // c6
+{ ""a	b""
+    // c8
+: // c9
+Pad // c10a
+  // c10b
+, }
+    // c12
+, // c13a
+  // c13b
+repeat // c14
+x // c15
+`// not a comment`
+    // c16
+, @rightPad // c18
+( // c19a
+  // c19b
+' ' )
+    // c21
+@calculatedFrom( // c22
+""a\\"" // c23a
+  // c23b
+)
+    // c24
+metadata // c25
+MetaDataX // c26
+, @tag(
+    // c28
+0 // c29a
+  // c29b
+) Logon
+    // c31
+int `two words`
+    // c33
+, } // c35
+")).
+Eval vm_compute in ("<<<M1722>>>" ++ check (runes_of_ascii "  options
+	{
+    T 
+=""" ++ [28040; 24687]%N ++ runes_of_ascii """ 
+;  string_
+	// @lengthOf(
+// 50% %s
+=
+false
+	;  f32a
+=
+    0123456789	;
 
-root packet P {
+    Z9_
+    = 
+255
+	}MetaData
+
+chars 	 // " ++ [27880; 37322]%N ++ runes_of_ascii "
+		{ 
+float32 charz `{ , }`
+,  // @lengthOf(
+  	zchar[	1  ] 
+u8x
+
+    `100% of %d`  , uint16	asx
+
+`two words` ,
+    char[
+	4294967296] Header
+, i32
+	Logon
+    ,
+	char[
+0123456789]  // c
+crc
+    , 
+} 
+packet/// triple
+	options1{ falsey `crlf
+line`  ,
+// `tick` ""quote"" 'q'
+
+/// triple
+    }
+")).
+Eval vm_compute in ("<<<M1282>>>" ++ check (runes_of_ascii "options {
+    // c1
+LittleEndian = true ; } // c6
+packet // c7a
+  // c7b
+B
+    // c8
+{
+    // c9
+u8 // c10a
+  // c10b
+a // c11a
+  // c11b
+, // c12
+string s // c14a
+  // c14b
+, // c15a
+  // c15b
+}
+    // c16
+root packet // c18a
+  // c18b
+P
+    // c19
+{ // c20
+u16
+    // c21
+L // c22a
+  // c22b
+@lengthOf(
+    // c23
+B // c24
+)
+    // c25
+, // c26a
+  // c26b
+B
+    // c27
+, // c28
+u8 t ,
+    // c31
+} // c32a
+  // c32b
+")).
+Eval vm_compute in ("<<<M18>>>" ++ check (runes_of_ascii "
+packet
+    tag  {@tag( 00 ) match x_y_z as Packet{[3
+    ]:packetx , [// " ++ [128512]%N ++ runes_of_ascii " emoji
+""{,}"" ]
+// " ++ [27880; 37322]%N ++ runes_of_ascii "
+// 50% %s
+:
+BodyLength ,
+//x
+//
+00
+    : i8i8 , 255  :	asx
+    //
+    , },} packet
+Packet { @calculatedFrom(
+    // " ++ [27880; 37322]%N ++ runes_of_ascii "
+    """ ++ [233]%N ++ runes_of_ascii "t" ++ [233]%N ++ runes_of_ascii """ // 50% %s
+)	match i8i8
+as
+    charz
+// @lengthOf(
+// " ++ [128512]%N ++ runes_of_ascii " emoji
+{ 3
+: f32a ""a\\"" // " ++ [27880; 37322]%N ++ runes_of_ascii "
+: len
+,	} , @tag(	10 ) @lengthOf( charz	) int , repeat	string Foo ,}")).
+Eval vm_compute in ("<<<M102>>>" ++ check (runes_of_ascii "  packet matchKey { repeat BodyLength
+{
+metadata ,
+    string asx `{ , }` ,
+    }
+    , len
+{
+    repeat a1 charz
+    // trailing space 
+    ,}  ,} packet
+i8i8 { repeat  char[
+0123456789 // @lengthOf(
+]Z9_
+    `it's` ,  match // trailing space 
+Packet  as float { 1 :
+lengthOf}
+    , }
+    packet x_y_z	{	repeat char[	1 ]
+    //
+    falsey	,
+    }
+")).
+Eval vm_compute in ("<<<M1462>>>" ++ check (runes_of_ascii "
+// c
+
+packet
+	BodyLength
+	{
+@tag(
+42 )Header	tag	`u8 x,`
+    ,
+
+    }	options{  }
+
+packet 
+string_
+	{	float32
+rootA , uint8
+
+MetaDataX	`crlf
+line`
+
+    , charz
+    // " ++ [128512]%N ++ runes_of_ascii " emoji
+, @tag(
+4294967296
+	)
+    @rightPad	(
+
+'\x00')
+
+@tag(
+
+    7
+)
+
+    // c
+u32	u128 	 //x
+  @calculatedFrom(
+
+    ""\" ++ [233]%N ++ runes_of_ascii """),}
+")).
+Eval vm_compute in ("<<<M1482>>>" ++ check (runes_of_ascii "// top
+MetaData msg_type {
+    // c2
+    int32 As `crlf
+    line`,
+    // c6
+    MetaDataX x `a\`,
     // c10
-    u8 K,// c13
-    u8 L @lengthOf(Body),
-    match K as Body {
-        1 : B,
-    },
+    int8 _x,
+    // c13
+    char[] As `u8 x,`,
+    // c17
+    zchar[3] uint8x,
+    // c22
+    As Foo,
+    // c25
+}
+
+// c26
+root packet repeatCount {
     // c30
 }
 // c31")).
-Eval vm_compute in ("<<<M283>>>" ++ check (runes_of_ascii "
-root packet /// triple
-u8x {}options { o =	zchar[ 1 ]
-    Packet
-    // trailing space 
-    =u32 ; uint8x =""a\\"";
-    /// triple
-    u8x
-=0
-;
-    crc =""\n"" ; }")).
-Eval vm_compute in ("<<<M443>>>" ++ check (runes_of_ascii "packet uint8x
-{ match pack
-    as msg_type	{
-    0123456789 :	@lengthOf(
-}
-,
-} packet //	t
-a1
-    { } options {packetx
-    = '\x00'	; u128= ""a	b""  ; }
-")).
-Eval vm_compute in ("<<<M488>>>" ++ check (runes_of_ascii "packet uint8x
-{ match pack
-    as msg_type	{
-    0123456789 :	float
-}
-,
-} packet //	t
-a1
-    { } options i8 packetx
-    = '\x00'	; u128= ""a	b""  ; }
-")).
-Eval vm_compute in ("<<<M412>>>" ++ check (runes_of_ascii "packet uint8x
-{ match as
-    pack msg_type	{
-    0123456789 :	float
-}
-,
-} packet //	t
-a1
-    { } options {packetx
-    = '\x00'	; u128= ""a	b""  ; }
-")).
-Eval vm_compute in ("<<<M435>>>" ++ check (runes_of_ascii "packet uint8x
-{ match pack
-    as msg_type	{
-    0123456789 	float
-}
-,
-} packet //	t
-a1
-    { } options {packetx
-    = '\x00'	; u128= ""a	b""  ; }
-")).
-Eval vm_compute in ("<<<M1531>>>" ++ check (runes_of_ascii "
-packet B 
-{u8  a,  } 
+Eval vm_compute in ("<<<M210>>>" ++ check (runes_of_ascii "packet x  {/// triple
+repeat// c
+int ,}
 root
 packet
-
-    P{
-
-    u8
-K
-
-    ,  match
-K
-as
-    Body
-	{
-
-    1 :
-
-B 
-,} ,u16 
-L@lengthOf(
-    Body  )
-,	}
-")).
-Eval vm_compute in ("<<<M551>>>" ++ check (runes_of_ascii "packet uint8x
-{ match pack
-    as " ++ [21517; 23383]%N ++ runes_of_ascii "	{
-    0123456789 :	float
-}
-,
-} packet //	t
-a1
-    { } options {packetx
-    = '\x00'	; u128= ""a	b""  ; }
-")).
-Eval vm_compute in ("<<<M420>>>" ++ check (runes_of_ascii "packet uint8x
-{ match pack
-    as 	{
-    0123456789 :	float
-}
-,
-} packet //	t
-a1
-    { } options {packetx
-    = '\x00'	; u128= ""a	b""  ; }
-")).
-Eval vm_compute in ("<<<M697>>>" ++ check (runes_of_ascii "// @lengthOf(
-packet i8i8 { u128 o , }
-, { MetaDataX = true;
-    BodyLength =""packet"" x_y_z= 007
-crc //x
-= ""abc"" ;
-    msg_type =
-i16 }")).
-Eval vm_compute in ("<<<M1395>>>" ++ check (runes_of_ascii "MetaData leftPad {
-    chars MetaDataX,
-    // c
-}
-
-packet repeatCount {
-    char[255] uint8x `" ++ [233]%N ++ runes_of_ascii "`,
-}
-
-MetaData pack {
-    As Foo,
-}")).
-Eval vm_compute in ("<<<M1514>>>" ++ check (runes_of_ascii "packet A {
-    Inner {
-        u8 x `a
-        b`,
-        Deep {
-            u8 y `a
-            b`,
-        },
-    },
-}")).
-Eval vm_compute in ("<<<M1148>>>" ++ check (runes_of_ascii "MetaData leftPad {
-// c
-chars MetaDataX , } packet repeatCount { char[ 255 ] uint8x `" ++ [233]%N ++ runes_of_ascii "` , } MetaData pack { As Foo , }")).
-Eval vm_compute in ("<<<M1180>>>" ++ check (runes_of_ascii "MetaData leftPad { chars MetaDataX , } packet repeatCount { char[ 255 ] uint8x `" ++ [233]%N ++ runes_of_ascii "` , } MetaData pack
-// c
-{ As Foo , }")).
-Eval vm_compute in ("<<<M1828>>>" ++ check (runes_of_ascii "  packet
-
 A
-{ Inner 
-{ 
-match
-
-k
-    as n {
-    [1
+{i8i8 Packet,}
+packet
+    // `tick` ""quote"" 'q'
+    pack {@lengthOf( msg_type
+)
+    // packet A { u8 x, }
+    f32a As `it's`
+, } root packet f32a
+{ i64_
+@lengthOf(// 50% %s
+matchKey
+)	`doc` ,
+}
+// " ++ [27880; 37322]%N ++ runes_of_ascii "
+")).
+Eval vm_compute in ("<<<M392>>>" ++ check (runes_of_ascii "packet
+    asx asx { @calculatedFrom(
+""""  ) @tag( 255 )repeat
+// packet A { u8 x, }
+// trailing space 
+int16 u8x
 ,
-    22
-, 
-007
-, 4
+@tag(
+    //
+    007 )
+    @tag( 0
+    /// triple
+    ) @tag( 1) u
+    @lengthOf( T ),
+// `tick` ""quote"" 'q'
+//x
+} // " ++ [128512]%N ++ runes_of_ascii " emoji")).
+Eval vm_compute in ("<<<M532>>>" ++ check (runes_of_ascii "packet
+    asx { @calculatedFrom(
+""""  ) @tag( 255 )repeat
+// packet A { u8 x, }
+// trailing space 
+int16 u8x
 ,
-	5  ,66 , 7
+\@tag(
+    //
+    007 )
+    @tag( 0
+    /// triple
+    ) @tag( 1) u
+    @lengthOf( T ),
+// `tick` ""quote"" 'q'
+//x
+} // " ++ [128512]%N ++ runes_of_ascii " emoji")).
+Eval vm_compute in ("<<<M479>>>" ++ check (runes_of_ascii "packet
+    asx { @calculatedFrom(
+""""  ) @tag( 255 )repeat
+// packet A { u8 x, }
+// trailing space 
+int16 u8x
+,
+@tag(
+    //
+    007 )
+    @tag( 0
+    /// triple
+    ( @tag( 1) u
+    @lengthOf( T ),
+// `tick` ""quote"" 'q'
+//x
+} // " ++ [128512]%N ++ runes_of_ascii " emoji")).
+Eval vm_compute in ("<<<M406>>>" ++ check (runes_of_ascii "packet
+    asx { @calculatedFrom(
+  ) @tag( 255 )repeat
+// packet A { u8 x, }
+// trailing space 
+int16 u8x
+,
+@tag(
+    //
+    007 )
+    @tag( 0
+    /// triple
+    ) @tag( 1) u
+    @lengthOf( T ),
+// `tick` ""quote"" 'q'
+//x
+} // " ++ [128512]%N ++ runes_of_ascii " emoji")).
+Eval vm_compute in ("<<<M56>>>" ++ check (runes_of_ascii "MetaData repeatCount
+    { u8 x
+`// not a comment`//x
+,// @lengthOf(
+char[] /// triple
+packetx	,  u8 float ,	float32 As`two words`, Z9_ //	t
+crc `" ++ [233]%N ++ runes_of_ascii "` ,
+    }MetaData int { matchKey int ,leftPad
+metadata `100% of %d`
+,}
 
-    ]:B
-
+")).
+Eval vm_compute in ("<<<M338>>>" ++ check (runes_of_ascii "root packet trueish// packet A { u8 x, }
+{ @tag( 00
+    // 50% %s
+    ) rootA @lengthOf( float) ,
+@rightPad (
+'0' ) pack string_ ,
+    }  packet i8i8
+    {
+string o
+    @calculatedFrom( """ ++ [128512]%N ++ runes_of_ascii """	)
 , }
-,
-},
-
-}
-
 ")).
-Eval vm_compute in ("<<<M1269>>>" ++ check (runes_of_ascii "  packet	B
-{
-u8 a , 
-string	s
-	,
+Eval vm_compute in ("<<<M1306>>>" ++ check (runes_of_ascii "  packet
+A
+{u8
+	a ,
     }
-    root
-	packet P
+    packet
+B
+    {	u16
+	b
 
-{ u16
+,
+}
+root	packet P
+	{ u8
+K1,
+u8
+	K2 ,
+    match K1
 
-L @lengthOf( B ), B
-    , 
-u8  t ,
+as
+
+M1 {
+1
+:
+    A
+,
+	}  ,	match
+
+    K2
+
+as 
+M2{1
+:
+
+B
+    , }
+
+,  }
+")).
+Eval vm_compute in ("<<<M672>>>" ++ check (runes_of_ascii "MetaData u
+    { } MetaData o
+{ float uint8x
+`100% of %d` ,repeatCount u8x, string_ leftPad
+, i32
+    Foo , int64 x `two words` , calculatedFrom
+stringy stringy `a\` ,
 }
 ")).
-Eval vm_compute in ("<<<M895>>>" ++ check (runes_of_ascii "packet A {
-  match k as n {
-    [1, ""bb"", 007, ""d"", 5, ""f"", 7, ""h"", 9, ""j"", 11] : B,
-    2 : C
-  },
-}")).
-Eval vm_compute in ("<<<M1840>>>" ++ check (runes_of_ascii "
+Eval vm_compute in ("<<<M559>>>" ++ check (runes_of_ascii "MetaData u
+    i64 } MetaData o
+{ float uint8x
+`100% of %d` ,repeatCount u8x, string_ leftPad
+, i32
+    Foo , int64 x `two words` , calculatedFrom
+stringy `a\` ,
+}
+")).
+Eval vm_compute in ("<<<M1670>>>" ++ check (runes_of_ascii "packet T {
+    @calculatedFrom(""1"")
+    @tag(0)
+    crc {
+        int16 falsey,/// triple
+        int64 i8i8,
+    },
+    Header,
+    trueish,
+}
+// packet A { u8 x, }")).
+Eval vm_compute in ("<<<M673>>>" ++ check (runes_of_ascii "MetaData u
+    { } MetaData o
+{ float uint8x
+`100% of %d` ,repeatCount u8x, string_ leftPad
+, i32
+    Foo , int64 x `two words` , calculatedFrom
+`a\` stringy ,
+}
+")).
+Eval vm_compute in ("<<<M711>>>" ++ check (runes_of_ascii "packet
+crc
+{repeat  Foo A  `u8 x,` ,	true uint8x ) string
+matchKey @lengthOf( stringy ) `a\`
+,
+    // c
+    }
+MetaData chars{
+leftPad
+    //	t
+    crc
+`" ++ [233]%N ++ runes_of_ascii "`
+,}")).
+Eval vm_compute in ("<<<M1909>>>" ++ check (runes_of_ascii "
+options 
+{
+    }options  {MetaDataX
+=
+
+    char
+;} 
+MetaData
+	Pad
+	{
+i8
+
+    metadata  , // c
+string
+    stringy
+    ,
+int8
+
+    As `{ , }` ,}
+
+")).
+Eval vm_compute in ("<<<M475>>>" ++ check (runes_of_ascii "packet
+    asx { @calculatedFrom(
+""""  ) @tag( 255 )repeat
+// packet A { u8 x, }
+// trailing space 
+int16 u8x
+,
+@tag(
+    //
+    007 )
+    @tag(")).
+Eval vm_compute in ("<<<M1489>>>" ++ check (runes_of_ascii "
 
   packet
+A 
+{ 
+match k
 
-    A
+    as  n{ [ ""a""
+    ,  ""bb"" ,	007, ""d"", 
+""e"",66
+, 
+""g""
+	,""h""
 
-{ @leftPad(
-	) char[4
+    , 9
+	] :
+    B  ,
 
-    ]	x 
-,  @rightPad (
-) zchar[
-
-2
-    ] y
-,
+    2 :	C 
+}
+, }")).
+Eval vm_compute in ("<<<M1924>>>" ++ check (runes_of_ascii "  packet 
+u8x{@leftPad
+(//	t
+'0'//x
+	)	uint8x  lengthOf `line1
+line2`  
+  // 50% %s
+	, 
+} packet	msg_type {}
+MetaData u 
+{
 	}
 ")).
-Eval vm_compute in ("<<<M630>>>" ++ check (runes_of_ascii "
-packet
-    a@tagsx {match u128 as lengthOf
-{
-//	t
-// `tick` ""quote"" 'q'
-255 : x ,
-    } ,	}")).
-Eval vm_compute in ("<<<M682>>>" ++ check (runes_of_ascii "// @lengthOf(
-packet i8i8 { u128 o , }
-options { MetaDataX = true;
-    BodyLength =""packet""")).
-Eval vm_compute in ("<<<M604>>>" ++ check (runes_of_ascii "
-packet
-    asx {match u128 as lengthOf
-{
-//	t
-// `tick` ""quote"" 'q'
-255 : , x
-    } ,	}")).
-Eval vm_compute in ("<<<M936>>>" ++ check (runes_of_ascii "packet A {
-    B b `a
-    b
-  c`,
-    B `a
-    b
-  c`,
-    repeat B bs `a
-    b
-  c`,
-}")).
-Eval vm_compute in ("<<<M1555>>>" ++ check (runes_of_ascii "packet 
-Inner
-    {
-u8 
-a
-, }
-	root  packet P 
-{  Inner
-
-    ref_obj	, u8	x  ,}
+Eval vm_compute in ("<<<M528>>>" ++ check (runes_of_ascii "packet
+    asx { @calculatedFrom(
+""""  ) @tag( 255 )repeat
+// packet A { u8 x, }
+// trailing space 
+int16 u8x
+,
+@tag(
 ")).
-Eval vm_compute in ("<<<M1453>>>" ++ check (runes_of_ascii "packet
-    A{
-
-    match
+Eval vm_compute in ("<<<M1207>>>" ++ check (runes_of_ascii "options { } // c
+options { MetaDataX = char ; } MetaData Pad { i8 metadata , string stringy , int8 As `{ , }` , }")).
+Eval vm_compute in ("<<<M1239>>>" ++ check (runes_of_ascii "options { } options { MetaDataX = char ; } MetaData Pad { i8 metadata , string stringy , // c
+int8 As `{ , }` , }")).
+Eval vm_compute in ("<<<M908>>>" ++ check (runes_of_ascii "packet A {
+  match k as n {
+    [""a"", 22, ""c c"", 4, ""e"", 66, ""g"", 8, ""i"", 10, ""k"", 12] : B,
+    2 : C
+  },
+}")).
+Eval vm_compute in ("<<<M1696>>>" ++ check (runes_of_ascii "packet	A
+{
+match
 k
-    as
 
-n{ 
-1 :
-	B	// a
-    // b
-  2
-: 
-C }
-,  }
+    as 
+n
+{
+[ ""a"",	22,
+	""c c""
+    ,	4,
+    ""e""
+,
 
+    66
+]
+
+:
+B 2:C}  ,}
 ")).
-Eval vm_compute in ("<<<M817>>>" ++ check (runes_of_ascii "packet A {
+Eval vm_compute in ("<<<M897>>>" ++ check (runes_of_ascii "packet A {
   match k as n {
-    [1, ""bb"", 007, ""d"", 5] : B,
+    [1, 22, ""c c"", 4, 5, ""f"", 7, 8, ""i"", 10, 11] : B,
     2 : C
   },
 }")).
-Eval vm_compute in ("<<<M813>>>" ++ check (runes_of_ascii "packet A {
+Eval vm_compute in ("<<<M1620>>>" ++ check (runes_of_ascii "
+packet
+
+    A  {match
+	k
+as
+
+    n
+
+{
+    [""a""
+    ,
+""bb"" , 007] 
+:
+B,
+    2:  C} ,	}
+")).
+Eval vm_compute in ("<<<M750>>>" ++ check (runes_of_ascii "a1 ""// no comment"" ' ' uint8 0 repeat char[ string MetaData ""`tick`"" uint64 00 char @tag(")).
+Eval vm_compute in ("<<<M1315>>>" ++ check (runes_of_ascii "
+packet
+    order_item {	u8 
+a
+,
+	}
+root packet	new_order{  order_item ,
+
+u8  x
+
+,} ")).
+Eval vm_compute in ("<<<M12>>>" ++ check (runes_of_ascii "options
+    { x = ""a\\""; } MetaData u {u8
+falsey ,
+    crc zchar , }
+/// triple
+")).
+Eval vm_compute in ("<<<M1735>>>" ++ check (runes_of_ascii "
+
+  packet
+	A
+    {
+
+    match  k as n 
+{ [""a""
+    ] : 
+B  ,
+	2
+	:  C 
+} ,}
+")).
+Eval vm_compute in ("<<<M802>>>" ++ check (runes_of_ascii "packet A {
   match k as n {
-    [1, 22, 007, 4, 5] : B,
+    [1, ""bb"", 007, ""d""] : B,
     2 : C
   },
 }")).
-Eval vm_compute in ("<<<M796>>>" ++ check (runes_of_ascii "packet A {
+Eval vm_compute in ("<<<M1939>>>" ++ check (runes_of_ascii "root packet Packet {
+    match f32a as Foo {
+        1 : tag,
+    },
+}")).
+Eval vm_compute in ("<<<M1639>>>" ++ check (runes_of_ascii "
+// c
+		MetaData
+	leftPad  {	msg_type
+    As
+
+    `{ , }` , }")).
+Eval vm_compute in ("<<<M1163>>>" ++ check (runes_of_ascii "// top
+packet
+    // c0
+x
+    // c1
+{
+    // c2
+}
+    // c3
+")).
+Eval vm_compute in ("<<<M772>>>" ++ check (runes_of_ascii "packet A {
   match k as n {
-    [1, 22, ""c c""] : B
+    [1] : B
     2 : C
   },
 }")).
-Eval vm_compute in ("<<<M444>>>" ++ check (runes_of_ascii "packet uint8x
-{ match pack
-    as msg_type	{
-    0123456789 :")).
-Eval vm_compute in ("<<<M1089>>>" ++ check (runes_of_ascii "packet A { // a
- @tag(1) u8 x, // b
- // c
- @tag(2) u8 y, }")).
-Eval vm_compute in ("<<<M1552>>>" ++ check (runes_of_ascii "options {
-    Logon = """ ++ [28040; 24687]%N ++ runes_of_ascii """;
-    BodyLength = false;
+Eval vm_compute in ("<<<M1918>>>" ++ check (runes_of_ascii "MetaData i64_ {
+    zchar[0123456789] i8i8 `" ++ [233]%N ++ runes_of_ascii "`,
 }")).
-Eval vm_compute in ("<<<M1504>>>" ++ check (runes_of_ascii "MetaData M {
-    u8 x `
-    x`,
-    T t `
-    x`,
-}")).
-Eval vm_compute in ("<<<M968>>>" ++ check (runes_of_ascii "options {
+Eval vm_compute in ("<<<M981>>>" ++ check (runes_of_ascii "options {
     a = ""x\
 y"";
     b = ""x\
 y""
 }")).
-Eval vm_compute in ("<<<M1726>>>" ++ check (runes_of_ascii "
-root packet
-    A
-	{ 
-u8 x`tab
-	x`, }
-")).
-Eval vm_compute in ("<<<M200>>>" ++ check (runes_of_ascii "options {
-options1 =
-    ' ' ;
-}
-
-")).
-Eval vm_compute in ("<<<M1558>>>" ++ check (runes_of_ascii "packet A {
-    u8 x `d" ++ [8192]%N ++ runes_of_ascii "`,// c" ++ [8192]%N ++ runes_of_ascii "
+Eval vm_compute in ("<<<M987>>>" ++ check (runes_of_ascii "options {
+    a = ""\
+"";
+    b = ""\
+""
 }")).
-Eval vm_compute in ("<<<M1033>>>" ++ check (runes_of_ascii "packet A {
- u8 x `d" ++ [11]%N ++ runes_of_ascii "`, // c" ++ [11]%N ++ runes_of_ascii "
-}")).
-Eval vm_compute in ("<<<M1895>>>" ++ check (runes_of_ascii "
-
-  packet
-	A { }  // c" ++ [8287]%N ++ runes_of_ascii "
- 
-")).
-Eval vm_compute in ("<<<M1111>>>" ++ check (runes_of_ascii "MetaData tag { } // c
-")).
-Eval vm_compute in ("<<<M1137>>>" ++ check (runes_of_ascii "MetaData u { }
+Eval vm_compute in ("<<<M1190>>>" ++ check (runes_of_ascii "options { A =
 // c
+""// no comment"" }")).
+Eval vm_compute in ("<<<M747>>>" ++ check ([1771]%N ++ runes_of_ascii "$" ++ [65533]%N ++ runes_of_ascii ":" ++ [1970]%N ++ runes_of_ascii "6x" ++ [1777]%N ++ runes_of_ascii "[$-." ++ [65533]%N ++ runes_of_ascii "3" ++ [1235; 65533; 65533; 65533]%N ++ runes_of_ascii "$" ++ [65533; 65533]%N ++ runes_of_ascii "u" ++ [65533]%N ++ runes_of_ascii "@~" ++ [65533; 65533]%N ++ runes_of_ascii "P" ++ [0; 65533]%N ++ runes_of_ascii "l" ++ [65533; 16]%N)).
+Eval vm_compute in ("<<<M173>>>" ++ check (runes_of_ascii "options	{ Z9_	= ""abc""
+    ;
+}
 ")).
-Eval vm_compute in ("<<<M992>>>" ++ check (runes_of_ascii "// c" ++ [133]%N ++ runes_of_ascii "
+Eval vm_compute in ("<<<M761>>>" ++ check (runes_of_ascii """\" ++ [233]%N ++ runes_of_ascii """ as char MetaData char[]")).
+Eval vm_compute in ("<<<M1142>>>" ++ check (runes_of_ascii "
+// c
+root packet a1 { }")).
+Eval vm_compute in ("<<<M1122>>>" ++ check (runes_of_ascii "// c
+MetaData tag { }")).
+Eval vm_compute in ("<<<M1021>>>" ++ check (runes_of_ascii "// c" ++ [8192]%N ++ runes_of_ascii "
 packet A {
 }")).
-Eval vm_compute in ("<<<M1570>>>" ++ check (runes_of_ascii "
-packet
-
-len 
-{
-
-}")).
-Eval vm_compute in ("<<<M1946>>>" ++ check (runes_of_ascii "packet x {
-}
-// c")).
-Eval vm_compute in ("<<<M255>>>" ++ check (runes_of_ascii " /// triple")).
-Eval vm_compute in ("<<<M1055>>>" ++ check (runes_of_ascii "// c" ++ [6158]%N)).
+Eval vm_compute in ("<<<M993>>>" ++ check (runes_of_ascii "packet A {
+}// c ")).
+Eval vm_compute in ("<<<M367>>>" ++ check (runes_of_ascii "
+ // @lengthOf(")).
+Eval vm_compute in ("<<<M760>>>" ++ check (runes_of_ascii "V]kUb{")).
+Eval vm_compute in ("<<<M728>>>" ++ check (runes_of_ascii "//")).
